@@ -204,6 +204,15 @@ impl<'a> Ctx<'a> {
         if self.prop == "C20" && self.trace {
             self.check_trace(input, &tc, "tailcall");
             self.check_trace(input, &sm, "state_machine");
+            // the same input as the buffer of a PARTIAL lexer (the bail-out at the end of the
+            // buffer must not re-read what the attempt has already passed)
+            let mut x = std::mem::take(&mut self.b_x);
+            for (be, name) in [(0u8, "tailcall, partial"), (1, "state_machine, partial")] {
+                real(d.e.idx, be, &Req { input: &boxed, partial: true, trace: true }, &mut x);
+                self.runs += 1;
+                self.check_trace(input, &x, name);
+            }
+            self.b_x = x;
             // every attempt (next() or restart after a skip) starts exactly at the end of the
             // previous item or skip: the sequence of attempt starts is the sequence of segment starts
             let mut segs: Vec<usize> = exp.items.iter().map(|i| i.span().0).chain(exp.skips.iter().map(|s| s.1)).collect();
@@ -513,7 +522,8 @@ pub fn read_probe_child(args: &Args, rep: &mut Report) {
     let (a, l) = spec.split_once(',').unwrap();
     let as_str = a == "1";
     let len: usize = l.parse().unwrap();
-    let sizes = [0usize, 1, 2, 3, 4, 7, 8, 9, 16, 32];
+    // 0 = the one-byte chunk `u8`, 100 = the zero-sized chunk `&[u8; 0]`, otherwise `&[u8; n]`
+    let sizes = [0usize, 100, 1, 2, 3, 4, 7, 8, 9, 16, 32];
     let mut evals = 0u64;
     let mut nontrivial = 0u64;
     let src: Vec<u8> = (0..len).map(|i| b'a' + (i % 26) as u8).collect();
@@ -523,7 +533,7 @@ pub fn read_probe_child(args: &Args, rep: &mut Report) {
     offsets.extend([usize::MAX / 2, usize::MAX / 2 + 1, 1usize << 63, (1usize << 63) - 1, 1usize << 32]);
     for &off in &offsets {
         for &n in &sizes {
-            let size = n.max(1);
+            let size = if n == 100 { 0 } else { n.max(1) };
             evals += 1;
             let want: Option<Vec<u8>> = match off.checked_add(size) {
                 Some(end) if end <= len => Some(src[off..end].to_vec()),
@@ -543,7 +553,7 @@ pub fn read_probe_child(args: &Args, rep: &mut Report) {
                 rep.violations.push(Violation {
                     key: format!("READ/{}/{len}/{off}/{n}", if as_str { "str" } else { "bytes" }),
                     tag: "READ".into(),
-                    case: format!("Source::read::<{}>({off}) on a {} of length {len}", if n == 0 { "u8".to_string() } else { format!("&[u8; {n}]") }, if as_str { "str" } else { "[u8]" }),
+                    case: format!("Source::read::<{}>({off}) on a {} of length {len}", if n == 0 { "u8".to_string() } else { format!("&[u8; {}]", if n == 100 { 0 } else { n }) }, if as_str { "str" } else { "[u8]" }),
                     detail: format!("expected {want:?}, got {}", match got { Ok(g) => format!("{g:?}"), Err(_) => "a panic".into() }),
                     replay: json!({"kind": "readprobe", "as_str": as_str, "len": len, "offset": off.to_string(), "n": n, "tag": "READ"}),
                 });
